@@ -1,7 +1,7 @@
 SPECIFICATION Spec
 CONSTANT MaxDefects = 1
 CONSTANT MaxValidations = 2
-CONSTANT MaxPending = 1
+CONSTANT MaxPending = 0
 INVARIANT TypeOK
 INVARIANT Precedence
 INVARIANT Taxonomy
